@@ -459,6 +459,7 @@ class World:
         CTX.git = self.git
         CTX.analysed = []
         CTX.analysed_paths = []
+        CTX.last_live = None
         saved_env = {}
         env = dict(self.env, **(env or {}))
         for k, v in env.items():
@@ -530,6 +531,7 @@ class World:
             obs["io_events"] = list(CTX.io_events)
         obs["analysed"] = list(CTX.analysed)
         obs["analysed_paths"] = list(CTX.analysed_paths)
+        obs["_live"] = CTX.last_live      # not serialised: read by the grand-totals oracle only
         CTX.counters["proc_" + obs["outcome"]] += 1
         return obs
 
